@@ -19,6 +19,7 @@ func checkC16(p *Prog, c *Check) {
 	c16Hazard(p, c)
 	c16Once(p, c)
 	c02Fired(p, c)
+	matchOperatorTable(p, c, "C02-R6.match")
 	c16Loops(p, c)
 }
 
